@@ -197,6 +197,16 @@ def _insitu(ev, viol, stats):
             bad("application_message_key", f"leaf {s['leaf']} generation {s['generation']}: reference {k.hex()} used {s['key']}")
         if n.hex()[8:] != s["nonce"][8:]:
             bad("application_message_nonce", f"leaf {s['leaf']}: reference ..{n.hex()[8:]} used ..{s['nonce'][8:]}")
+        # sender data: key and nonce from the sender data secret and the ciphertext sample
+        if s.get("msg"):
+            m = tls.parse_exact(tls.parse_mls_message, H(s["msg"]))
+            pv = m.get("private_message")
+            if pv is not None:
+                sk, sn = kdfref.sender_data_key_nonce(suite, hit["sender_data_secret"], pv["ciphertext"])
+                stats["insitu_values"] += 2
+                stats["insitu_sender_data_checked"] += 1
+                if [sk.hex(), sn.hex()] not in s.get("all", []):
+                    bad("sender_data_key_nonce", f"leaf {s['leaf']}: no AEAD seal of the message used the reference sender-data key/nonce ({sk.hex()}, {sn.hex()}); seals: {s.get('all')}")
 
 
 def run(outs, extra, ctx):
